@@ -898,8 +898,12 @@ static int write_table(void *context, cif_value_tp *table_value) {
                     FAIL(soft, CIF_INTERNAL_ERROR);
                 }
 
-                if (u_strHasMoreChar32Than(*key, -1, LINE_LENGTH(context) - (LAST_COLUMN(context) + 4))
-                        && !write_newline(context)) {
+                /*
+                 * The key and the colon that follows it must share a line: allow for the separating space, for up to
+                 * three delimiter characters on each side (a key may need triple quotes), and for the colon.
+                 */
+                if (u_strHasMoreChar32Than(*key, -1, LINE_LENGTH(context) - (LAST_COLUMN(context) + 8))
+                        && (LAST_COLUMN(context) > 0) && !write_newline(context)) {
                     FAIL(soft, CIF_ERROR);
                 }
 
@@ -913,8 +917,9 @@ static int write_table(void *context, cif_value_tp *table_value) {
                         SET_RESULT(CIF_ERROR);
                     } else if ((result = write_char(context, kv, CIF_FALSE)) != CIF_OK) {
                         SET_RESULT(result);
-                    } else if (write_literal(context, ":", 1, CIF_NOWRAP) != 1) {
-                        SET_RESULT(CIF_ERROR);
+                    } else if ((result = write_literal(context, ":", 1, CIF_NOWRAP)) != 1) {
+                        /* a key whose closing delimiter ends at the line limit leaves no room for its colon on any line */
+                        SET_RESULT((result == -CIF_OVERLENGTH_LINE) ? CIF_DISALLOWED_VALUE : CIF_ERROR);
                     } else {
                         if ((result = write_item(NULL, value, context)) > 0) {
                             /* an error code */
